@@ -261,7 +261,10 @@ def r5_validate_then_mutate(ctx, prog):
                ('SessionManager::openSession', set(), ''),
                ('SoftHSM::C_InitToken', {'initToken'}, 'the callee returned the error itself'),
                ('Token::loginSO', {'loginSO'}, 'a failed PIN check; SecureDataManager::login is checked below'),
-               ('Token::loginUser', {'loginUser'}, 'a failed PIN check; SecureDataManager::login is checked below')]
+               ('Token::loginUser', {'loginUser'}, 'a failed PIN check; SecureDataManager::login is checked below'),
+               # re-authentication (CKU_CONTEXT_SPECIFIC) only verifies: it may not call anything that changes the login state, succeed or fail
+               ('Token::reAuthenticate', set(), ''),
+               ('SecureDataManager::reAuthenticate', set(), '')]
     for fname, allowed, why in targets:
         f = prog.fn(fname)
         ctx.analysed(f)
@@ -269,7 +272,7 @@ def r5_validate_then_mutate(ctx, prog):
         r.paths += len(o.outcomes)
         bad = None
         for oc in o.outcomes:
-            if may_succeed(oc):
+            if may_succeed(oc) and not fname.endswith('::reAuthenticate'):
                 continue
             muts = [e for e in oc['events'] if e[0] == 'call' and e[1] in MUTATORS and e[1] not in allowed]
             # a failing exit whose error *is* the result of the allowed callee is fine; any other mutation before a failure is not
@@ -448,9 +451,16 @@ def run(ctx):
     r5_validate_then_mutate(ctx, prog)
     r6_inittoken(ctx, prog)
     r7_table_scans(ctx, prog)
+    from rules import c14
+    c14.r2_createtoken(ctx, prog, rule_id='C03.R8')
 
 
 MUTANTS = [
+    dict(name='reauthenticate-so-by-login', rule='C03.R5', file='src/lib/slot_mgr/Token.cpp', after='CK_RV Token::reAuthenticate(ByteString& pin)',
+         old='\t\tif (!sdm->reAuthenticateSO(pin))', new='\t\tif (!sdm->loginSO(pin))'),
+    dict(name='createtoken-label-check-after-login', rule='C03.R8', file='src/lib/slot_mgr/Token.cpp', after='CK_RV Token::createToken(',
+         edits=[dict(file='src/lib/slot_mgr/Token.cpp', after='CK_RV Token::createToken(', old='\tif (label == NULL_PTR) return CKR_ARGUMENTS_BAD;\n', new=''),
+                dict(file='src/lib/slot_mgr/Token.cpp', after='CK_RV Token::createToken(', old='\t\t// Reset the token\n', new='\t\tif (label == NULL_PTR) return CKR_ARGUMENTS_BAD;\n\t\t// Reset the token\n')]),
     dict(name='closesession-scan-stops-at-hole', rule='C03.R7', file='src/lib/session_mgr/SessionManager.cpp', after='CK_RV SessionManager::closeSession(',
          old='\t\tif (sessions[i] == NULL) continue;', new='\t\tif (sessions[i] == NULL) break;'),
     dict(name='havesession-first-live-entry-only', rule='C03.R7', file='src/lib/session_mgr/SessionManager.cpp', after='bool SessionManager::haveSession(',
